@@ -41,7 +41,7 @@ LEVEL_TEXT = {
                   "C12_incremental_eq_recomputed, C12_load_rebuilds_counts, C12_store_counts/sizes (counts are those of the abstract key->content map under Live0), "
                   "C12_exact_after_crash_recovery, C12_exact_in_every_concurrent_state (every reachable state of the concurrent model, every schedule, also under injected faults). "
                   "K2/K4: known_blobs, stats, sizes of the real library after every op, reopen and crash recovery equal the model's and a recount from the spec map.",
-             note=BASE_NOTE + "u32 refcount and u64 statistics overflow are outside the theorems (unbounded N in the model)."),
+             note=BASE_NOTE + "u32 refcount and u64 statistics overflow are outside the theorems (unbounded N in the model). Suites: sequential histories (incl. bulk histories with thousands of keys), every kill point, and the size-boundary suite (single-chunk and multi-chunk contents at 2^k-1, 2^k, 2^k+1)."),
  "C13": dict(text="Theorem C13_abort_identity: an abandoned transaction returns with memory and filesystem unchanged (same files, same directories), all its calls are "
                   "on its own staging file; C13_abort_preserves_state: invariant, exactness and CAS naming preserved. K2: aborts at random positions, "
                   "observation before == after on the real library, trace only staging.",
@@ -49,7 +49,7 @@ LEVEL_TEXT = {
                               "abandoned transaction never registers an intent, takes no lock and changes no shared state; K6 runs aborts next to commits on the same key."),
  "C16": dict(text="Theorems C16_*: op / snapshot / typed-op / record / segment / path round trips for all values within the format's size fields, decoders total by "
                   "construction with allocation measure bounded by the input length, key orders are strict total orders and numeric on integer keys. "
-                  "K1: the real encoders/decoders on generated and malformed inputs vs the model, under catch_unwind with a counting allocator.",
+                  "K1: the real encoders/decoders on generated and malformed inputs vs the model, under catch_unwind with a counting allocator; typed snapshot round trips (`rtidx`) for every key type: the real encoder on a map ordered by the key type, the real decoder, compared as sets.",
              note=BASE_NOTE + "Partial on 'never panics or overflows' and on real allocation: decided by K1 sampling of the real code, not by the theorem."),
  "C17": dict(text="Theorems C17_range_total (every content, start, end of any magnitude: slice or rejection exactly as specified), C17_alloc_bounded, C17_read_loop "
                   "(for every short-read behaviour of the kernel). K8: exhaustive cube for small L plus boundary values on the real library vs the model and vs Python slices.",
@@ -155,7 +155,8 @@ LEVEL_TEXT.update({
                   "development: C05_single_thread_is_the_ordered_map / C05_single_thread_refines_the_sequential_spec (one thread of the concurrent model, under every "
                   "schedule, returns exactly the outputs of the ordered-map specification used by C01 and ends with its key map and exactly its blobs). K6 with get / get_reader / "
                   "get_range / get_size / iteration, readers parked between lookup and open, and model-free schedule exploration; oracle: each read result is the WHOLE "
-                  "content (or the exact slice) of a value the key held during the call, each iteration the key list of one instant.",
+                  "content (or the exact slice) of a value the key held during the call, each iteration the key list of one instant; after a put has returned, every visible index holds its value "
+                  "or that of a write not ordered before it (put_visible).",
              note=BASE_NOTE + "The model interleaves whole lock-protected sections of the real code (scheduling points = the verif::point hooks); relaxed-memory effects and "
                               "the fairness of the real RwLock/Mutex are outside it. remove/remove_range are documented as not strictly atomic (they scan, then apply): the "
                               "theorems linearize their read at the scan step and their write at the apply step."),
